@@ -51,7 +51,7 @@ func anyShapeFeeAttributes() *actiontypes.FeeAttributes {
 		case 4:
 			fi.FeeType = &actiontypes.FeeInfo_Amount_{Amount: &actiontypes.FeeInfo_Amount{Value: verif.BigInt("fixed").String()}}
 		case 5:
-			fi.FeeType = &actiontypes.FeeInfo_Amount_{Amount: &actiontypes.FeeInfo_Amount{Value: []string{"", "abc", "1e3", "0x"}[verif.Choose("nan", 4)]}}
+			fi.FeeType = &actiontypes.FeeInfo_Amount_{Amount: &actiontypes.FeeInfo_Amount{Value: []string{"", "abc", "1e3", "0x", "115792089237316195423570985008687907853269984665640564039457584007913129639936"}[verif.Choose("nan", 5)]}}
 		}
 		fa.FeesInfo = append(fa.FeesInfo, fi)
 	}
